@@ -19,6 +19,15 @@ Recognisers (each returns {current name: customary name}):
 """
 import ast
 
+CUSTOMARY = frozenset({
+    '_accessmode', '_path', '_dtype', '_shape', '_size', '_datadir', '_metadata', '_datafilename', '_arraydescrfilename',
+    '_metadatafilename', '_readmefilename', '_valuesdirname', '_indicesdirname', '_protectedfiles', '_datapath',
+    '_arraydescrpath', '_valuespath', '_indicespath', '_values', '_indices', '_protectedpaths', '_check_writeprotected',
+    '_write_jsonfile', '_write_jsondict', '_write_txt', '_update_jsondict', '_delete_files', '_read',
+    '_callatfilecreationordeletion', '_update_readmetxt', '_update_arrayinfo', '_update_arraydescr', '_read_arraydescr',
+    '_check_arrayinfoconsistency', '_open_array', '_append', '_checkarrayforappend', '_update_len', '_arrayinfo', '_view',
+    '_archunkgenerator', '_fillgenerator', '_memmap', '_valuesfd', '_formatversion'})
+
 FILECONSTS = {'arrayvalues.bin': '_datafilename', 'arraydescription.json': '_arraydescrfilename',
               'metadata.json': '_metadatafilename', 'README.txt': '_readmefilename',
               'values': '_valuesdirname', 'indices': '_indicesdirname'}
@@ -84,10 +93,38 @@ def find_renames(trees):
                     if isinstance(tg, ast.Name):
                         defined.add(tg.id)
     ren = {}
+    # where each simple name is defined: class names / '<module>' — a customary name may be restored for one class while
+    # another class still (or again) uses it, e.g. Array._append and RaggedArray._append
+    where = {}
+    for mod, t in trees.items():
+        for st in t.body:
+            if isinstance(st, ast.FunctionDef):
+                where.setdefault(st.name, set()).add('<module>')
+            elif isinstance(st, ast.ClassDef):
+                for m in st.body:
+                    if isinstance(m, ast.FunctionDef):
+                        where.setdefault(m.name, set()).add(st.name)
+                        for n in _own(m):
+                            if isinstance(n, (ast.Assign, ast.AnnAssign, ast.AugAssign)):
+                                for tg in (n.targets if isinstance(n, ast.Assign) else [n.target]):
+                                    for x in ast.walk(tg):
+                                        if _selfattr(x):
+                                            where.setdefault(_selfattr(x), set()).add(st.name)
+                    elif isinstance(m, ast.Assign):
+                        for tg in m.targets:
+                            if isinstance(tg, ast.Name):
+                                where.setdefault(tg.id, set()).add(st.name)
 
     def want(old, new):
-        if _private(old) and old != new and new not in defined and old not in ren and new not in ren.values():
-            ren[old] = new
+        if not _private(old) or old == new or old in ren or old in CUSTOMARY:
+            return
+        # the customary name must be free in every scope that defines the current name
+        if where.get(old, set()) & where.get(new, set()):
+            return
+        for o2, n2 in ren.items():
+            if n2 == new and where.get(o2, set()) & where.get(old, set()):
+                return
+        ren[old] = new
 
     def methods(c):
         return {st.name: st for st in c.body if isinstance(st, ast.FunctionDef)}
@@ -279,7 +316,8 @@ def find_renames(trees):
                 want(_selfattr(n.targets[0]), '_' + n.value.attr)
     # ---- attributes behind public properties
     for c in classes.values():
-        for name, fn in methods(c).items():
+        for fn in [st for st in c.body if isinstance(st, ast.FunctionDef)]:
+            name = fn.name
             if 'property' in _decos(fn) and not name.startswith('_'):
                 body = [s for s in fn.body if not (isinstance(s, ast.Expr) and isinstance(s.value, ast.Constant))]
                 if len(body) == 1 and isinstance(body[0], ast.Return):
@@ -398,4 +436,38 @@ def canonicalise(trees, rounds=3):
         done.update(ren)
     for k, v in canonicalise_params(trees).items():
         done[f'{k[0]}({k[1]})'] = v
+    done.update(_split_inlined_reader(trees))
     return done
+
+
+def _split_inlined_reader(trees):
+    """Inverse of "inline a helper into its only caller": when the description reader has been merged into the
+    `_arrayinfo` property, give it back its own method so that the rules find the reader role:
+        @property
+        def _arrayinfo(self): <reader body>      ->    def _read_arraydescr(self): <reader body>
+                                                        @property
+                                                        def _arrayinfo(self): return self._read_arraydescr()"""
+    for t in trees.values():
+        for c in t.body:
+            if not (isinstance(c, ast.ClassDef) and c.name == 'Array'):
+                continue
+            names = {m.name for m in c.body if isinstance(m, ast.FunctionDef)}
+            if '_read_arraydescr' in names:
+                return {}
+            for i, m in enumerate(c.body):
+                if isinstance(m, ast.FunctionDef) and m.name == '_arrayinfo' and 'property' in _decos(m) and \
+                        any(_callname(x) == 'read_jsondict' for x in _calls(m)):
+                    new = ast.FunctionDef(name='_read_arraydescr', args=m.args, body=m.body, decorator_list=[],
+                                          returns=None, type_comment=None)
+                    try:
+                        new.type_params = []
+                    except Exception:
+                        pass
+                    ast.copy_location(new, m)
+                    call = ast.Call(func=ast.Attribute(value=ast.Name(id='self', ctx=ast.Load()), attr='_read_arraydescr',
+                                                       ctx=ast.Load()), args=[], keywords=[])
+                    m.body = [ast.copy_location(ast.Return(value=call), m)]
+                    c.body.insert(i, new)
+                    ast.fix_missing_locations(c)
+                    return {'<reader inlined into _arrayinfo>': '_read_arraydescr'}
+    return {}
